@@ -898,9 +898,31 @@ def _helper_call(e, helpers) -> Optional[str]:
     return None
 
 
+def _inline_if_test(st, helpers, caller_names, counter):
+    """``if self._h(args): A else: B`` (or ``if not self._h(args)``) with a helper that answers a question: the helper's body is
+    inlined with every ``return E`` replaced by the branch E selects (both branches under ``if E`` when E is not a constant)."""
+    test, neg = st.test, False
+    if isinstance(test, ast.UnaryOp) and isinstance(test.op, ast.Not):
+        test, neg = test.operand, True
+    if not _helper_call(test, helpers):
+        return None
+    fake = ast.copy_location(ast.Expr(value=test), st)
+    body, orelse = (st.orelse, st.body) if neg else (st.body, st.orelse)
+
+    def k(E):
+        if E is None or (isinstance(E, ast.Constant) and not E.value):
+            return clone(orelse)
+        if isinstance(E, ast.Constant) and E.value:
+            return clone(body)
+        return [ast.copy_location(ast.If(test=E, body=clone(body) or [ast.Pass()], orelse=clone(orelse)), st)]
+    return _inline_call(fake, test, helpers, caller_names, counter, k, simple_k=False)
+
+
 def _inline_stmt(st, helpers, caller_names, counter):
     """If the simple statement ``st`` contains exactly one inlinable helper call in a position that is
     evaluated before any other call of the statement, return the replacement statement list, else None."""
+    if isinstance(st, ast.If):
+        return _inline_if_test(st, helpers, caller_names, counter)
     if not isinstance(st, (ast.Expr, ast.Assign, ast.AnnAssign, ast.AugAssign, ast.Return)):
         return None
     calls = [n for n in walk_local_stmt_(st) if _helper_call(n, helpers)]
@@ -922,6 +944,22 @@ def _inline_stmt(st, helpers, caller_names, counter):
                 ok = True
             if not ok:
                 return None
+    def k(E):
+        if isinstance(st, ast.Expr) and st.value is K:
+            if E is not None and any(isinstance(x, ast.Call) for x in ast.walk(E)):
+                return [ast.copy_location(ast.Expr(value=E), st)]
+            return []
+        s2 = clone_except(st, K, E if E is not None else ast.Constant(value=None))
+        return [s2]
+    simple_k = (isinstance(st, ast.Expr) and st.value is K) or (isinstance(st, ast.Return) and st.value is K) or \
+        (isinstance(st, ast.Assign) and st.value is K and len(st.targets) == 1 and isinstance(st.targets[0], ast.Name)) or \
+        (isinstance(st, ast.AnnAssign) and st.value is K and isinstance(st.target, ast.Name))
+    return _inline_call(st, K, helpers, caller_names, counter, k, simple_k)
+
+
+def _inline_call(st, K, helpers, caller_names, counter, k, simple_k):
+    """Body of the helper called by ``K`` with parameters substituted and returns replaced through ``k``; None when not inlinable."""
+    h = helpers[K.func.attr]
     params = [a.arg for a in h.args.args]
     static = any(dotted(d) == "staticmethod" for d in h.decorator_list)
     if not static:
@@ -954,17 +992,6 @@ def _inline_stmt(st, helpers, caller_names, counter):
             elif isinstance(n, (ast.FunctionDef, ast.AsyncFunctionDef)) and n.name in ren:
                 n.name = ren[n.name]
     tmp = _Subst(mapping).visit(tmp)
-
-    def k(E):
-        if isinstance(st, ast.Expr) and st.value is K:
-            if E is not None and any(isinstance(x, ast.Call) for x in ast.walk(E)):
-                return [ast.copy_location(ast.Expr(value=E), st)]
-            return []
-        s2 = clone_except(st, K, E if E is not None else ast.Constant(value=None))
-        return [s2]
-    simple_k = (isinstance(st, ast.Expr) and st.value is K) or (isinstance(st, ast.Return) and st.value is K) or \
-        (isinstance(st, ast.Assign) and st.value is K and len(st.targets) == 1 and isinstance(st.targets[0], ast.Name)) or \
-        (isinstance(st, ast.AnnAssign) and st.value is K and isinstance(st.target, ast.Name))
     try:
         body = _seq(tmp.body, k, simple_k)
     except _NotInlinable:
@@ -1071,6 +1098,39 @@ def _header_exprs(st):
     return []
 
 
+def _evaluated_first(headers, use, run_names) -> bool:
+    """The Name ``use`` inside one of the header expressions is evaluated unconditionally (not in a short-circuited operand, a
+    conditional-expression branch, a comprehension or a lambda) and no call outside the temporaries of the same run is evaluated before it."""
+    for h in headers:
+        anc = _ancestors_within(h, use)
+        if not anc and h is not use:
+            continue
+        child = use
+        for a in anc:
+            if isinstance(a, ast.BoolOp) and a.values[0] is not child:
+                return False
+            if isinstance(a, ast.IfExp) and a.test is not child:
+                return False
+            if isinstance(a, ast.Compare) and not (a.left is child or (a.comparators and a.comparators[0] is child)):
+                return False
+            if isinstance(a, (ast.Lambda, ast.ListComp, ast.SetComp, ast.DictComp, ast.GeneratorExp)):
+                return False
+            child = a
+        # calls evaluated before the use: those that precede it in evaluation order and are not its ancestors
+        before = []
+        for n in (walk_local_stmt_(h) if isinstance(h, ast.stmt) else walk_local(h)):
+            if n is use:
+                break
+            before.append(n)
+        for n in before:
+            if isinstance(n, ast.Call) and n not in anc and dotted(n.func) not in _PURE_CALLS:
+                return False
+            if isinstance(n, ast.Name) and n.id in run_names and n is not use:
+                continue
+        return True
+    return False
+
+
 def _subst_temps(func) -> bool:
     """One round of temporary elimination on ``func`` (own statements only); True when something changed."""
     own = list(_own_nodes(func))
@@ -1141,6 +1201,9 @@ def _subst_temps(func) -> bool:
                     inh = [n for n in hdr_nodes if isinstance(n, ast.Name) and n.id == t_ and isinstance(n.ctx, ast.Load)]
                     if len(us) != 1 or len(inh) != 1 or us[0] is not inh[0]:
                         ok = False
+                        break
+                    if not _is_pure(v_, set(stores) | params) and not _evaluated_first(hdr, us[0], {t2 for (_, t2, _) in run}):
+                        ok = False   # a value with effects may only move to a place that is evaluated unconditionally and before any other call
                         break
                     pos.append(order.get(id(us[0]), -1))
                 if ok and pos == sorted(pos):
@@ -1240,6 +1303,32 @@ def norm_class(ctx, rel: str, clsname: str, keep: Iterable[str] = ()) -> ast.Cla
     cls = clone(orig)
     keep = set(keep)
     counter = [0]
+    # a private read-only property that merely names a pure test of the instance (`return self._x is not None`) is replaced by that test
+    for blk, f in list(_class_functions(cls)):
+        body = [st for st in f.body if not (isinstance(st, ast.Expr) and isinstance(st.value, ast.Constant) and isinstance(st.value.value, str))]
+        if (f.name not in keep and f.name.startswith("_") and not f.name.startswith("__") and len(f.decorator_list) == 1 and dotted(f.decorator_list[0]) == "property"
+                and len(f.args.args) == 1 and len(body) == 1 and isinstance(body[0], ast.Return) and body[0].value is not None and _is_pure(body[0].value)
+                and not any(isinstance(x, ast.Name) and x.id != f.args.args[0].arg for x in ast.walk(body[0].value) if isinstance(x, ast.Name) and x.id not in ("None", "True", "False"))
+                and sum(1 for _, g_ in _class_functions(cls) if g_.name == f.name) == 1
+                and not any(isinstance(c_, ast.ClassDef) and c_ is not orig and any(dotted(b_) == clsname for b_ in c_.bases) for c_ in ast.walk(mod.tree))):
+            me = f.args.args[0].arg
+            stores = [n for n in ast.walk(mod.tree) if isinstance(n, ast.Attribute) and n.attr == f.name and not isinstance(n.ctx, ast.Load)]
+            outside = [n for n in ast.walk(mod.tree) if isinstance(n, ast.Attribute) and n.attr == f.name and mod.qualname(n).split(".")[0] != clsname]
+            if stores or outside:
+                continue
+            expr = body[0].value
+
+            class _P(ast.NodeTransformer):
+                def visit_Attribute(self, node):
+                    self.generic_visit(node)
+                    if node.attr == f.name and isinstance(node.ctx, ast.Load):
+                        recv = node.value
+                        return _Subst({me: recv}).visit(clone(expr)) if not (isinstance(recv, ast.Name) and recv.id == me) else clone(expr)
+                    return node
+            blk.remove(f)
+            if not blk:
+                blk.append(ast.Pass())
+            _P().visit(cls)
     mod_refs: Dict[str, list] = {}
     for n in ast.walk(mod.tree):
         if isinstance(n, ast.Attribute):
